@@ -21,7 +21,9 @@ PROPERTY_ID = "C17"
 RULE = (
     "files sub-check (exhaustive): the four schema files are regenerated in a subprocess exactly as "
     "scripts/generate_schema.py does and compared node by node with specification/schema (after normalising "
-    "'additionalProperties: true' == absent); file names carry SerialHugr.get_version(). differential sub-check: valid "
+    "'additionalProperties: true' == absent), and again one file at a time in a fresh process with only that "
+    "configuration applied (independent of the order in which the script generates them); file names carry "
+    "SerialHugr.get_version(). differential sub-check: valid "
     "HUGR / Package / Extension documents from generated programs / extensions, each with one structural mutation at a "
     "generated JSON path (delete a key; unknown discriminator literal; object or array replaced by a string or null; "
     "unknown bound literal; unknown top-level key); acceptance by the strict / lax pydantic models (rebuilt as the "
@@ -83,9 +85,54 @@ def check_file(case) -> list[Fail]:
     return []
 
 
+_fresh: dict = {}
+
+
+def regenerated_fresh(name):
+    """The schema the models define for one (root model, configuration), generated in a process of its own
+    (no other configuration was applied before: what write_schema of the generator script does, alone)."""
+    if name not in _fresh:
+        root = "TestingHugr" if name.startswith("testing") else "SerialHugr"
+        strict = "strict" in name
+        code = (
+            "import json, sys\n"
+            "from pydantic import ConfigDict\n"
+            "from pydantic.json_schema import models_json_schema\n"
+            "from hugr._serialization.extension import Extension, Package\n"
+            "from hugr._serialization.serial_hugr import SerialHugr\n"
+            "from hugr._serialization.testing_hugr import TestingHugr\n"
+            f"root = {root}\n"
+            f"cfg = ConfigDict(strict=True, extra='forbid') if {strict!r} else ConfigDict(strict=False, extra='allow')\n"
+            "root._pydantic_rebuild(cfg, force=True)\n"
+            "_, top = models_json_schema([(s, 'validation') for s in [root, Extension, Package]], title='HUGR schema')\n"
+            "json.dump(top, sys.stdout)\n"
+        )
+        env = dict(os.environ, PYTHONPATH=os.path.join(REPO, "hugr-py", "src"))
+        r = subprocess.run([sys.executable, "-c", code], env=env, capture_output=True, text=True, timeout=600)
+        if r.returncode != 0:
+            raise HarnessError("fresh schema generation failed: " + r.stderr[-500:])
+        _fresh[name] = json.loads(r.stdout)
+    return _fresh[name]
+
+
+def check_fresh(case) -> list[Fail]:
+    from vlib.props.c05 import first_diff
+
+    name = case["fresh"]
+    with open(os.path.join(REPO, "specification", "schema", name)) as f:
+        p = normalise(json.load(f))
+    g = normalise(regenerated_fresh(name))
+    if g != p:
+        path = first_diff(g, p) or "?"
+        return [Fail("schema-files", f"differs-from-fresh-generation:{'strict' if 'strict' in name else 'lax'}:{path}", f"{name}: the models alone (fresh process, this configuration only) and the published schema differ at {path}")]
+    return []
+
+
 def enum_files(tier):
     for n in FILES:
         yield {"file": n}
+    for n in FILES:
+        yield {"fresh": n}
     yield {"version": True}
     yield {"keys": True}
 
@@ -143,6 +190,8 @@ def check_version(case) -> list[Fail]:
         return check_file(case)
     if "keys" in case:
         return check_keys()
+    if "fresh" in case:
+        return check_fresh(case)
     from hugr._serialization.extension import Extension, Package
     from hugr._serialization.serial_hugr import SerialHugr, serialization_version
     from hugr._serialization.testing_hugr import TestingHugr
@@ -197,6 +246,8 @@ def schema_accepts(mode, kind, doc):
     return _validators[key].is_valid(doc)
 
 
+# literals that are not bounds (some were bounds once, some are the enum's member names)
+BOUND_LITERALS = ["X", "E", "L", "Eq", "c", "a", "Copyable", "Any", "Linear", ""]
 DISCRIMINATORS = ("op", "t", "s", "tp", "tya", "v", "b")
 
 
@@ -251,7 +302,8 @@ def mutate(doc, mut, sel1, sel2):
         if not ks:
             return None
         k = ks[sel2 % len(ks)]
-        node[k] = "X"
+        # a literal that is not a bound (some of them were bounds once, or are the enum's member names)
+        node[k] = BOUND_LITERALS[(sel1 + sel2) % len(BOUND_LITERALS)]
         return d, p + (k,)
     return None
 
@@ -327,6 +379,8 @@ def check_sweep(case) -> list[Fail]:
                 muts.append("unknown-discriminator")
             if isinstance(node[k], dict | list) and k != "edges":
                 muts += ["container-to-string", "container-to-null"]
+            if k in ("b", "bound") and node[k] in ("C", "A"):
+                muts += ["unknown-bound:" + lit for lit in BOUND_LITERALS]
             for mut in muts:
                 key = (sh, k, mut)
                 if key in seen:
@@ -340,6 +394,8 @@ def check_sweep(case) -> list[Fail]:
                     del tgt[k]
                 elif mut == "unknown-discriminator":
                     tgt[k] = "Bogus"
+                elif mut.startswith("unknown-bound:"):
+                    tgt[k] = mut.split(":", 1)[1]
                 else:
                     tgt[k] = "zz" if mut == "container-to-string" else None
                 n += 1
